@@ -11,6 +11,12 @@
 #include "stir/ProjDataInfoCylindricalNoArcCorr.h"
 #include "stir/VoxelsOnCartesianGrid.h"
 #include "stir/Scanner.h"
+#include "stir/recon_buildblock/PoissonLogLikelihoodWithLinearModelForMeanAndProjData.h"
+#include "stir/recon_buildblock/ProjMatrixByBinUsingRayTracing.h"
+#include "stir/recon_buildblock/ProjectorByBinPairUsingProjMatrixByBin.h"
+#include "stir/ProjDataInMemory.h"
+#include "stir/ExamInfo.h"
+#include "stir/Verbosity.h"
 #include <cstdio>
 #include <cstdlib>
 #include <cstring>
@@ -65,6 +71,56 @@ int main(int argc, char** argv)
         for (int v = 0; v < nv; ++v)
           if (seen[std::make_pair(seg, v)] != 1) { std::printf("CONFIRMED (segment %d, view %d) processed %d times over all %d subsets\n", seg, v, seen[std::make_pair(seg, v)], S); return 1; }
       if ((int)seen.size() != (2 * maxseg + 1) * nv) { std::printf("CONFIRMED view-segments outside the data were processed\n"); return 1; }
+      std::printf("REPLAY ok\n");
+      return 0;
+    }
+  if (!strcmp(argv[1], "balanced") && argc >= 7)
+    {
+      // "Subsets are reported as balanced exactly when all subsets process the same number of viewgrams":
+      // recount what each subset really processes and compare with the verdict of the objective function
+      const int nv = atoi(argv[2]), S = atoi(argv[3]);
+      const bool d90 = atoi(argv[4]), d180 = atoi(argv[5]), sw = atoi(argv[6]);
+      Verbosity::set(0);
+      shared_ptr<Scanner> scanner(new Scanner(Scanner::E931));
+      scanner->set_num_detectors_per_ring(2 * nv);
+      scanner->set_num_rings(3);
+      shared_ptr<ProjDataInfo> pdi(ProjDataInfo::ProjDataInfoCTI(scanner, 1, 1, nv, 5, false));
+      shared_ptr<ExamInfo> exam(new ExamInfo(ImagingModality::PT));
+      shared_ptr<ProjData> pd(new ProjDataInMemory(exam, pdi));
+      pd->fill(1.F);
+      shared_ptr<DiscretisedDensity<3, float>> img(new VoxelsOnCartesianGrid<float>(exam, *pdi, 1.F, CartesianCoordinate3D<float>(0, 0, 0)));
+      img->fill(1.F);
+      shared_ptr<ProjMatrixByBinUsingRayTracing> pm(new ProjMatrixByBinUsingRayTracing());
+      pm->set_do_symmetry_90degrees_min_phi(d90);
+      pm->set_do_symmetry_180degrees_min_phi(d180);
+      pm->set_do_symmetry_swap_segment(sw);
+      shared_ptr<ProjectorByBinPair> pp(new ProjectorByBinPairUsingProjMatrixByBin(pm));
+      PoissonLogLikelihoodWithLinearModelForMeanAndProjData<DiscretisedDensity<3, float>> obj;
+      obj.set_proj_data_sptr(pd);
+      obj.set_projector_pair_sptr(pp);
+      obj.set_use_subset_sensitivities(true); // set_up accepts unbalanced subsets in this mode; the verdict can be asked afterwards
+      obj.set_num_subsets(S);
+      if (obj.set_up(img) != Succeeded::yes) { std::printf("set_up failed\n"); return 3; }
+      const DataSymmetriesForViewSegmentNumbers& sym = *pp->get_symmetries_used();
+      const int maxseg = obj.get_max_segment_num_to_process();
+      std::vector<int> n(S, 0);
+      for (int s = 0; s < S; ++s)
+        for (auto& b : detail::find_basic_vs_nums_in_subset(*pdi, sym, -maxseg, maxseg, s, S))
+          {
+            std::vector<ViewSegmentNumbers> rel;
+            sym.get_related_view_segment_numbers(rel, b);
+            n[s] += (int)rel.size();
+          }
+      bool same = true;
+      for (int s = 1; s < S; ++s) same = same && n[s] == n[0];
+      const bool reported = obj.subsets_are_approximately_balanced();
+      if (same != reported)
+        {
+          std::printf("CONFIRMED %d views, %d subsets (sym90=%d sym180=%d swap=%d): viewgrams per subset", nv, S, (int)d90, (int)d180, (int)sw);
+          for (int s = 0; s < S; ++s) std::printf(" %d", n[s]);
+          std::printf(" -> %s, but subsets_are_approximately_balanced() reports %s\n", same ? "balanced" : "NOT balanced", reported ? "balanced" : "NOT balanced");
+          return 1;
+        }
       std::printf("REPLAY ok\n");
       return 0;
     }
